@@ -1238,17 +1238,23 @@ static void gen_stmt(Node *node) {
     for (Node *n = node->case_next; n; n = n->case_next) {
       char *ax = (node->cond->ty->size == 8) ? "%rax" : "%eax";
       char *di = (node->cond->ty->size == 8) ? "%rdi" : "%edi";
+      char *dx = (node->cond->ty->size == 8) ? "%rdx" : "%edx";
 
+      // Case values may not fit in a 32-bit immediate, so compare
+      // through a register.
       if (n->begin == n->end) {
-        println("  cmp $%ld, %s", n->begin, ax);
+        println("  mov $%ld, %s", n->begin, dx);
+        println("  cmp %s, %s", dx, ax);
         println("  je %s", n->label);
         continue;
       }
 
       // [GNU] Case ranges
       println("  mov %s, %s", ax, di);
-      println("  sub $%ld, %s", n->begin, di);
-      println("  cmp $%ld, %s", n->end - n->begin, di);
+      println("  mov $%ld, %s", n->begin, dx);
+      println("  sub %s, %s", dx, di);
+      println("  mov $%ld, %s", n->end - n->begin, dx);
+      println("  cmp %s, %s", dx, di);
       println("  jbe %s", n->label);
     }
 
